@@ -11,6 +11,8 @@ def INCLUDE(name):
 
 def replay(ob):
     from props import C05, C09
+    if "predates_the_implemented_semantics" in ob["name"]:
+        return "import sys\nsys.path.insert(0, '/verif')\nfrom replay_lib.opt_native import main\nmain(['softmax_old_opset'])\n"
     if "unresolved_attribute_reference" in ob["name"]:
         return "import sys\nsys.path.insert(0, '/verif')\nfrom replay_lib.opt_native import main\nmain(['attr_ref'])\n"
     if "evaluation_only_behind_all_guards" in ob["name"]:
